@@ -130,6 +130,10 @@ class Parenthesis(TypedExpression):
                 )
                 inner = self.value.rebuild(indent=inner_indent, inline=False)
                 prefix = "\n\n" if leading_layout.blank_line else "\n"
+                if inner.startswith("\n"):
+                    # The body brings its own blank line (handed over by a
+                    # pruned let layer): one is all a re-parse keeps.
+                    prefix = "\n"
                 inner = prefix + inner
             else:
                 inner_indent = indent
